@@ -5,7 +5,7 @@ Import ListNotations.
 Open Scope string_scope.
 
 Definition is_upper (c : ascii) : bool :=
-  let n := nat_of_ascii c in (65 <=? n) && (n <=? 90).
+  let n := nat_of_ascii c in ((65 <=? n) && (n <=? 90))%nat.
 
 Definition lower_ascii (c : ascii) : ascii :=
   if is_upper c then ascii_of_nat (nat_of_ascii c + 32) else c.
@@ -17,7 +17,7 @@ Fixpoint lower (s : string) : string :=
   end.
 
 Definition is_lower_c (c : ascii) : bool :=
-  let n := nat_of_ascii c in (97 <=? n) && (n <=? 122).
+  let n := nat_of_ascii c in ((97 <=? n) && (n <=? 122))%nat.
 Definition upper_ascii (c : ascii) : ascii :=
   if is_lower_c c then ascii_of_nat (nat_of_ascii c - 32) else c.
 Fixpoint upper (s : string) : string :=
